@@ -430,3 +430,27 @@ package channels
 //@       (*result0).blockIndexCache != nil && (*result0).progressCache != nil
 //@ func (*channels.Channels).Start {C13}
 //@   ensures [migrates] seq(dyn.func) && result == ret(dyn.func, 0)
+
+// ---------------------------------------------------------------------------------------------
+// Cleanup (C09): entry functions, settling, exactly-once
+
+//@ extern func (github.com/filecoin-project/go-statemachine/fsm.Context).Trigger
+//@ func channels.cleanupConnection {C09}
+//@   requires env != nil && ctx != nil
+//@   ensures [once] seq(ChannelEnvironment.ID, ChannelEnvironment.CleanupChannel, ChannelEnvironment.Unprotect, Context.Trigger)
+//@   ensures [release] all(ChannelEnvironment.CleanupChannel, $1 == datatransfer.ChannelID{ID: channel.TransferID, Initiator: channel.Initiator, Responder: channel.Responder})
+//@   ensures [unprotect-other] all(ChannelEnvironment.Unprotect, $1 == (channel.Initiator == ret(ChannelEnvironment.ID, 0) ? channel.Responder : channel.Initiator))
+//@   ensures [settle] all(Context.Trigger, $1 == datatransfer.CleanupComplete && len($2) == 0) && result == ret(Context.Trigger, 0)
+
+//@ lemma [entry-funcs-are-cleanup] {C09}: forall x Status :: hasEntry(x) <==> isCleanup(x)
+//@ lemma [cleanup-set] {C09}: forall x Status :: isCleanup(x) <==> (x == datatransfer.Cancelling || x == datatransfer.Failing || x == datatransfer.Completing)
+//@ lemma [settles] {C09}: forall s State ::
+//@     (s.Status == datatransfer.Cancelling ==> applied(s, CleanupComplete) && step(s, CleanupComplete).Status == datatransfer.Cancelled) &&
+//@     (s.Status == datatransfer.Failing ==> applied(s, CleanupComplete) && step(s, CleanupComplete).Status == datatransfer.Failed) &&
+//@     (s.Status == datatransfer.Completing ==> applied(s, CleanupComplete) && step(s, CleanupComplete).Status == datatransfer.Completed)
+//@ lemma [terminal-only-after-cleanup] {C09}: foreach E in (*) :: forall s State ::
+//@     !isFinal(s.Status) && isFinal(step(s, E).Status) ==> E == CleanupComplete && isCleanup(s.Status)
+//@ lemma [entering-cleanup-runs-entry] {C09}: foreach E in (*) :: forall s State ::
+//@     applied(s, E) && !isCleanup(s.Status) && isCleanup(step(s, E).Status) ==> entryRuns(s, E)
+//@ lemma [once-per-entry] {C09}: foreach E in (*) except (CompleteCleanupOnRestart) :: forall s State ::
+//@     isCleanup(s.Status) && step(s, E).Status == s.Status ==> !entryRuns(s, E)
